@@ -13,14 +13,18 @@ schema:  S <na> afield*na <nb> bfield*nb <nt> tfield*nt  D (9 atom default value
 
 requests
    N <value>                         ->  <value after a msgpack round trip>
-   mol <schema> <record>             ->  ok W <wire value> K <record read back>   |  err:<kind> W <wire value>
+   mol <schema> <record>             ->  ok B <hex of the stored bytes> W <wire value> K <record read back>
+                                         |  err:<kind> B <hex> W <wire value>
    ens <schema> <record>             ->  likewise
    ver <hex of the first 16 bytes of the file | none>   ->  1 | 2
+   pack <value>                      ->  <hex of msgpack.dumps(value)> | unpackable
+   unpack <hex>                      ->  <value msgpack.loads gives> | none
 -/
 import Molli.Util.Basic
 import Molli.Model.Codec
+import Molli.Model.Msgpack
 namespace Molli.Driver.C01
-open Molli.Util Molli.Model.Codec
+open Molli.Util Molli.Model.Codec Molli.Model.Msgpack
 
 /-! ### printing -/
 
@@ -37,7 +41,7 @@ def showVal : MVal → List String
   | .int i => ["i" ++ toString i]
   | .f64 b => ["d" ++ hex64 b]
   | .f32 b => ["e" ++ hex32 b]
-  | .str s => ["s" ++ hexTok s.toUTF8.toList]
+  | .str s => ["s" ++ hexTok s]
   | .bin b => ["b" ++ hexTok b]
   | .arr isList l => ((if isList then "L" else "T") ++ toString l.length) :: showVals l
   | .map l => ("M" ++ toString l.length) :: showPairs l
@@ -98,10 +102,7 @@ def parseVal : Nat → P MVal
       | 'i' => (String.ofList r).toInt?.map (fun i => (.int i, ts))
       | 'd' => if r.length = 16 then (natOfHex? r).map (fun n => (.f64 (UInt64.ofNat n), ts)) else none
       | 'e' => if r.length = 8 then (natOfHex? r).map (fun n => (.f32 (UInt32.ofNat n), ts)) else none
-      | 's' => do
-          let b ← bytesTok? r
-          let s ← String.fromUTF8? (ByteArray.mk b.toArray)
-          pure (.str s, ts)
+      | 's' => (bytesTok? r).map (fun b => (.str b, ts))
       | 'b' => (bytesTok? r).map (fun b => (.bin b, ts))
       | 'L' => do
           let n ← (String.ofList r).toNat?
@@ -253,8 +254,8 @@ def handle (payload : String) : String :=
       | some (m, []) =>
         let w := N (serMol S m)
         match deserMol S w with
-        | .ok m' => join (["ok", "W"] ++ showVal w ++ ["K"] ++ showMol m')
-        | .error e => join (["err:" ++ errName e, "W"] ++ showVal w)
+        | .ok m' => join (["ok", "B", hexTok (pack (serMol S m)), "W"] ++ showVal w ++ ["K"] ++ showMol m')
+        | .error e => join (["err:" ++ errName e, "B", hexTok (pack (serMol S m)), "W"] ++ showVal w)
       | _ => "err:bad-record"
     | none => "err:bad-schema"
   | "ens" :: ts =>
@@ -264,10 +265,20 @@ def handle (payload : String) : String :=
       | some (e, []) =>
         let w := N (serEns S e)
         match deserEns S w with
-        | .ok e' => join (["ok", "W"] ++ showVal w ++ ["K"] ++ showEns e')
-        | .error er => join (["err:" ++ errName er, "W"] ++ showVal w)
+        | .ok e' => join (["ok", "B", hexTok (pack (serEns S e)), "W"] ++ showVal w ++ ["K"] ++ showEns e')
+        | .error er => join (["err:" ++ errName er, "B", hexTok (pack (serEns S e)), "W"] ++ showVal w)
       | _ => "err:bad-record"
     | none => "err:bad-schema"
+  | "pack" :: ts =>
+    match pVal ts with
+    | some (v, []) => if packable v then hexTok (pack v) else "unpackable"
+    | _ => "err:bad-request"
+  | ["unpack", h] =>
+    match bytesOfHex? h with
+    | some b => match loads b with
+      | some v => join (showVal v)
+      | none => "none"
+    | none => "err:bad-request"
   | ["ver", h] =>
     if h == "none" then toString (codecVersion none)
     else match bytesOfHex? h with
